@@ -92,6 +92,7 @@ type ContractTable struct {
 	ModSets     map[string]*ModSet
 	Encapsulated map[string]bool
 	ConstMaps    []*ConstMap
+	ConstStrs    []*ConstStr
 	Files       []string
 	Axioms      []Clause
 }
@@ -151,7 +152,7 @@ func (ct *ContractTable) parseFile(repo, file string) error {
 	keywords := map[string]bool{"func": true, "extern": true, "iface": true, "ghost": true, "ghostfield": true, "pred": true,
 		"requires": true, "ensures": true, "modifies": true, "serves": true, "loop": true, "call": true, "assume": true,
 		"trusted": true, "inline": true, "pure": true, "nobody": true, "axiom": true, "end": true,
-		"gmodifies": true, "gensures": true, "modset": true, "allowpanic": true, "encapsulated": true, "lensures": true, "constmap": true, "selfensures": true, "noframe": true, "nosafety": true}
+		"gmodifies": true, "gensures": true, "modset": true, "allowpanic": true, "encapsulated": true, "lensures": true, "constmap": true, "selfensures": true, "noframe": true, "nosafety": true, "conststr": true}
 	for i, l := range lines {
 		t := strings.TrimSpace(l)
 		if !strings.HasPrefix(t, "//@") {
@@ -335,6 +336,37 @@ func (ct *ContractTable) parseFile(repo, file string) error {
 				ct.ModSets = map[string]*ModSet{}
 			}
 			ct.ModSets[ms.Name] = ms
+			cur = nil
+		case "conststr":
+			// conststr[Cxx] fn:callee#k = "literal": in function fn of this package the k-th call (source order) of
+			// callee passes exactly this constant string as its only constant-string argument
+			cs := &ConstStr{PkgPath: pkgPath, File: file, Line: it.line, Src: c}
+			r := rest
+			if m := tagRe.FindStringSubmatch(r); m != nil {
+				for _, t := range strings.Split(m[1], ",") {
+					if t = strings.TrimSpace(t); t != "" {
+						cs.Tags = append(cs.Tags, t)
+					}
+				}
+				r = strings.TrimSpace(r[len(m[0]):])
+			}
+			k := strings.Index(r, "=")
+			k1 := strings.Index(r, ":")
+			k2 := strings.Index(r, "#")
+			if k < 0 || k1 < 0 || k2 < k1 || k < k2 {
+				return errf("conststr fn:callee#k = \"literal\"")
+			}
+			cs.Func = strings.TrimSpace(r[:k1])
+			cs.Callee = strings.TrimSpace(r[k1+1 : k2])
+			if _, err := fmt.Sscanf(strings.TrimSpace(r[k2+1:k]), "%d", &cs.Ord); err != nil {
+				return errf("conststr: bad ordinal")
+			}
+			lit, err := strconv.Unquote(strings.TrimSpace(r[k+1:]))
+			if err != nil {
+				return errf("conststr: literal must be a Go string literal: %v", err)
+			}
+			cs.Want = lit
+			ct.ConstStrs = append(ct.ConstStrs, cs)
 			cur = nil
 		case "constmap":
 			// constmap[Cxx] name = "k1", "k2", ...: the package-level map `name` is filled by the package
@@ -581,4 +613,14 @@ type ConstMap struct {
 	Tags          []string
 	File, Src     string
 	Line          int
+}
+
+// ConstStr: a constant string argument pinned at a call site (regular expressions, format strings).
+type ConstStr struct {
+	PkgPath, Func, Callee string
+	Ord                   int
+	Want                  string
+	Tags                  []string
+	File, Src             string
+	Line                  int
 }
